@@ -43,11 +43,12 @@ def mkBits (neg : Bool) (n : Nat) : Nat := (if neg then signBit else 0) + n
     exponent range unbounded above.  `F` = ⌊q·2^1074⌋; keep its 53 leading bits `M` (all of it when it has fewer:
     subnormals and the first binade have spacing 2^-1074), compare `q` with the midpoint `(M + 1/2)·2^sh`. -/
 def roundOrd (num den : Nat) : Nat :=
-  let Q := num * 2 ^ 1074
+  -- (literal factors are written on the LEFT of a product: the kernel's `Nat.mul` recurses on the right argument)
+  let Q := 2 ^ 1074 * num
   let F := Q / den
   let sh := F.log2 + 1 - 53
   let M := F / 2 ^ sh
-  let n0 := sh * P52 + M
+  let n0 := P52 * sh + M
   let mid := (2 * M + 1) * 2 ^ sh * den
   if 2 * Q < mid then n0 else if mid < 2 * Q then n0 + 1 else if M % 2 = 0 then n0 else n0 + 1
 
@@ -75,26 +76,31 @@ def readFloat (b : Bytes) : Res Nat :=
 
 /-! ### Write: shortest digits that read back, closest to the value, printed positionally ('f', -1) -/
 
-/-- the value as an exact decimal: `scaled n / 2^1074 = W / 10^J` -/
-def exactDec (n : Nat) : Nat × Nat :=
-  let e := n / P52
-  let M := if e = 0 then n else P52 + n % P52
-  let sh := e - 1
-  if 1074 ≤ sh then (M * 2 ^ (sh - 1074), 0) else (M * 5 ^ (1074 - sh), 1074 - sh)
+/-- the value as an exact decimal: `scaled n / 2^1074 = exactW n / 10^(exactJ n)`.
+    `exactM` = the full mantissa, `exactSh` = the exponent above the first binade (`scaled n = exactM n * 2^(exactSh n)`) -/
+def exactM (n : Nat) : Nat := if n / P52 = 0 then n else P52 + n % P52
+def exactSh (n : Nat) : Nat := n / P52 - 1
+def exactW (n : Nat) : Nat :=
+  if 1074 ≤ exactSh n then exactM n * 2 ^ (exactSh n - 1074) else exactM n * 5 ^ (1074 - exactSh n)
+def exactJ (n : Nat) : Nat := if 1074 ≤ exactSh n then 0 else 1074 - exactSh n
+
+/-- the text `x * 10^c / 10^J` reads back as the double with ordinal `n` -/
+def candOk (n J x c : Nat) : Bool := roundOrd (x * 10 ^ c) (10 ^ J) == n
+
+/-- of the two candidates around `W` the closer one, the even one when equally close
+    (Ryū's last step: "if middle digit is 5 and all trimmed digits were zero then round to even") -/
+def pickCloser (W lo c : Nat) : Nat :=
+  if W - lo * 10 ^ c < (lo + 1) * 10 ^ c - W || (W - lo * 10 ^ c == (lo + 1) * 10 ^ c - W && lo % 2 == 0) then lo else lo + 1
 
 /-- candidates with `k` significant digits: the decimal expansion `W` (of `L` digits) cut after `k` digits, and that
-    plus one unit of the last kept place; a candidate qualifies when it reads back to `n`; of two the closer one, the even one when equally close
-    (Ryū's last step: "if middle digit is 5 and all trimmed digits were zero then round to even"). -/
+    plus one unit of the last kept place; a candidate qualifies when it reads back to `n`. Result: digits and the
+    number of dropped places. -/
 def tryK (n W J L k : Nat) : Option (Nat × Nat) :=
-  let c := L - k
-  let lo := W / 10 ^ c
-  let okLo := roundOrd (lo * 10 ^ c) (10 ^ J) == n
-  let okHi := roundOrd ((lo + 1) * 10 ^ c) (10 ^ J) == n
-  if okLo && okHi then
-    let below := W - lo * 10 ^ c
-    let above := (lo + 1) * 10 ^ c - W
-    some (if below < above || (below == above && lo % 2 == 0) then lo else lo + 1, c)
-  else if okLo then some (lo, c) else if okHi then some (lo + 1, c) else none
+  if candOk n J (W / 10 ^ (L - k)) (L - k) && candOk n J (W / 10 ^ (L - k) + 1) (L - k) then
+    some (pickCloser W (W / 10 ^ (L - k)) (L - k), L - k)
+  else if candOk n J (W / 10 ^ (L - k)) (L - k) then some (W / 10 ^ (L - k), L - k)
+  else if candOk n J (W / 10 ^ (L - k) + 1) (L - k) then some (W / 10 ^ (L - k) + 1, L - k)
+  else none
 
 /-- the first `k` (from `k` upward, `fuel` tries) with a qualifying candidate; all digits otherwise -/
 def shortestFrom (n W J L : Nat) : Nat → Nat → Nat × Nat
@@ -103,24 +109,25 @@ def shortestFrom (n W J L : Nat) : Nat → Nat → Nat × Nat
       | some r => r
       | none => shortestFrom n W J L fuel (k + 1)
 
+/-- shortest digits `D` and dropped places `c`: the value is written as `D * 10^c / 10^(exactJ n)`; 17 digits always suffice -/
+def shortest (n : Nat) : Nat × Nat :=
+  shortestFrom n (exactW n) (exactJ n) (fmtNat (exactW n)).length 17 1
+
 /-- drop trailing zeros of `D` while decimals remain -/
 def stripZ : Nat → Nat → Nat × Nat
   | D, 0 => (D, 0)
   | D, s + 1 => if D % 10 = 0 then stripZ (D / 10) s else (D, s + 1)
 
-/-- `%f` with the minimal number of decimals for the value `D * 10^c / 10^J` -/
-def renderPos (D c J : Nat) : Bytes :=
-  if J ≤ c then fmtNat (D * 10 ^ (c - J)) else
-  let (D', s) := stripZ D (J - c)
-  if s = 0 then fmtNat D' else fmtNat (D' / 10 ^ s) ++ [cDot] ++ digitsW s (D' % 10 ^ s)
+/-- integer part, and `s > 0` decimals after a point -/
+def renderFrac (p : Nat × Nat) : Bytes :=
+  if p.2 = 0 then fmtNat p.1 else fmtNat (p.1 / 10 ^ p.2) ++ [cDot] ++ digitsW p.2 (p.1 % 10 ^ p.2)
 
-/-- `FIXFloat.Write` of the finite double with sign `neg` and ordinal `n` -/
-def writeOrd (n : Nat) : Bytes :=
-  if n = 0 then [48] else
-  let (W, J) := exactDec n
-  let L := (fmtNat W).length
-  let (D, c) := shortestFrom n W J L 17 1
-  renderPos D c J
+/-- `%f` with the minimal number of decimals for the value `p.1 * 10^p.2 / 10^J` -/
+def renderPos (p : Nat × Nat) (J : Nat) : Bytes :=
+  if J ≤ p.2 then fmtNat (p.1 * 10 ^ (p.2 - J)) else renderFrac (stripZ p.1 (J - p.2))
+
+/-- `FIXFloat.Write` of the non-negative finite double with ordinal `n` (zero is written "0": no digits, no decimals) -/
+def writeOrd (n : Nat) : Bytes := renderPos (shortest n) (exactJ n)
 
 def writeFloat (bits : Nat) : Bytes :=
   (if negOf bits then [cMinus] else []) ++ writeOrd (ordOf bits)
